@@ -1,6 +1,6 @@
 (* Evaluation of harness cases for C16.  One case = one history on a fresh pipeline
    P (static) + S 0, S 1 (static) -> D = NewManyCollection(P, table-driven transformation). *)
-From V Require Export lib.Verdict C16.Model.
+From V Require Export lib.Verdict C16.Model C16.JoinModel.
 Open Scope N_scope.
 
 (* what the harness observed on the real collection at a quiescent point *)
@@ -204,15 +204,6 @@ Definition jspec (kind : N) (subs : N -> fmap N) (n : nat) (k : key) : option N 
   | [] => None
   | v :: r => if N.eqb kind 2 then Some (merge_vals (v :: r)) else Some v      (* first collection wins *)
   end.
-(* JoinCollection forwards its sub-collections' events without comparing old and new (taking over a key with
-   an equal object yields Update(o, o)): its streams are checked without the "no no-op Update" clause *)
-Definition ev_wf_weak (m : fmap N) (e : oev) : bool :=
-  match e with
-  | EUpd k o _ => match m k with Some x => N.eqb x o | None => false end
-  | _ => ev_wf m e
-  end.
-Fixpoint stream_wf_weak (m : fmap N) (evs : list oev) : bool :=
-  match evs with [] => true | e :: r => ev_wf_weak m e && stream_wf_weak (apply_ev m e) r end.
 Record jst := { j_subs : N -> fmap N; j_keys : list key; j_hist : list (N * list oev); j_ok : bool }.
 Definition jstep_eval (kind : N) (n : nat) (s : jst) (x : jstep) : jst :=
   match x with
@@ -240,10 +231,38 @@ Definition join_ok (kind nsubs : N) (steps : list jstep) : bool :=
   j_ok (fold_left (jstep_eval kind (N.to_nat nsubs)) steps
           {| j_subs := fun _ => fempty; j_keys := []; j_hist := []; j_ok := true |}).
 
+(* ---- joined shapes: the models of JoinModel.v predict every observation (each mutation is delivered
+   before the next one, as the harness does) *)
+Record jmst := { jm_j : jworld; jm_m : mworld; jm_seen : list (N * nat); jm_ok : bool }.
+Definition jm_step (kind : N) (n : nat) (s : jmst) (x : jstep) : jmst :=
+  let acts := match x with
+              | JPut i k v => [JAPut i k v; JADeliver i]
+              | JDel i k => [JADel i k; JADeliver i]
+              | JRegister h => [JARegister h]
+              | JObs _ _ _ => []
+              end in
+  let J := jrun n (jm_j s) acts in
+  let M := mrun n merge_vals (jm_m s) acts in
+  match x with
+  | JObs l gets evs =>
+      let get := if N.eqb kind 2 then mw_out M else join_get n (jw_subs J) in
+      let hs := if N.eqb kind 2 then mw_handlers M else jw_handlers J in
+      {| jm_j := J; jm_m := M; jm_seen := map (fun h => (fst h, List.length (snd h))) hs;
+         jm_ok := jm_ok s &&
+           forallb (fun kv => optN_eqb (get (fst kv)) (Some (snd kv))) l &&
+           forallb (fun kv => optN_eqb (get (fst kv)) (snd kv)) gets &&
+           Nat.eqb (List.length evs) (List.length hs) &&
+           forallb (fun he => same_per_key (snd he) (skipn (seen_of (jm_seen s) (fst he)) (hist_of hs (fst he)))) evs |}
+  | _ => {| jm_j := J; jm_m := M; jm_seen := jm_seen s; jm_ok := jm_ok s |}
+  end.
+Definition join_model_ok (kind nsubs : N) (steps : list jstep) : bool :=
+  jm_ok (fold_left (jm_step kind (N.to_nat nsubs)) steps {| jm_j := jw0; jm_m := mw0; jm_seen := []; jm_ok := true |}).
+
 Definition eval_case (c : case) : rst :=
   match c with
   | JoinHist _ kind nsubs steps =>
-      {| r_w := w0; r_trace := []; r_seen := []; r_hist := []; r_hyp := true; r_model := true;
+      {| r_w := w0; r_trace := []; r_seen := []; r_hist := []; r_hyp := true;
+         r_model := join_model_ok kind nsubs steps;
          r_prop := join_ok kind nsubs steps |}
   | Hist _ u ps acts => reval u (prog_of ps) acts
   | Churn _ final streams =>
